@@ -143,6 +143,9 @@ func newSCluster(name string, salt uint64, log *reviewLog, gates *gateSet) *sclu
 		key := sarKey(&sar.Spec)
 		log.add(review{Cluster: name, Kind: "sar", Key: key})
 		gates.hold("sar", key, name)
+		if err := gates.fault("sar", key, name); err != nil {
+			return true, nil, err
+		}
 		switch c.answer("sar", key) {
 		case ansYes:
 			sar.Status = authorizationv1.SubjectAccessReviewStatus{Allowed: true, Reason: "by:" + name}
@@ -523,6 +526,11 @@ func (s *scenario) run(nops int) {
 	var rec []recent
 	for i := 0; i < nops && !s.panicked; i++ {
 		roll := g.Intn(100)
+		if s.idx%6 == 0 && i == nops/2 {
+			// one retried review per selected scenario (each costs the production 500 ms back-off)
+			s.retryCase()
+			continue
+		}
 		if g.Chance(0.08) {
 			// concurrent phase: the same fresh credentials go to hosts of different clusters at the same time
 			s.overlapCase(g.Bool())
@@ -640,7 +648,9 @@ func TestCheck(t *testing.T) {
 			"(followed by a replay of the recent credentials on it); a cluster loses / regains its ready endpoint; an alias is dropped; a cluster is deleted; " +
 			"concurrent phase (about 5 per scenario): one fresh token, or one fresh user x attribute tuple, is sent to 2-4 hosts of pairwise different clusters at the same time - the stub review of the " +
 			"first request is held at a barrier inside the reactor until the other requests have been issued (and have reached their own cluster's barrier or returned), so the overlap is " +
-			"constructed, not hoped for; the credentials are then replayed sequentially on the same hosts. Cache TTL pairs from " +
+			"constructed, not hoped for; the credentials are then replayed sequentially on the same hosts; retry phase (one per 6th scenario): the first SubjectAccessReview of a fresh user x attribute tuple " +
+			"(plain or impersonate) fails with a retriable API error (500 InternalError or 429 with Retry-After, what webhook.DefaultShouldRetry retries); the reactor signals the harness before it returns the error, " +
+			"the harness moves the alias to another live cluster, then lets the error return, so the retry (after the production 500 ms back-off) happens after the move. Cache TTL pairs from " +
 			"{0, 50ms, 10s, 1h} incl. asymmetric ones. Oracle: provenance monitor (see package comment) + every review caused by a request is received by the cluster owning the host. " +
 			"thorough tier adds the production wiring (real Manager/controller/handler chain, HTTP stub upstreams serving TokenReview/SAR) and concurrency. " +
 			"Non-trivial = the scenario contains at least two hosts of different clusters asked with the same credentials; distinct = hash of the operation list.")
@@ -680,6 +690,8 @@ func TestCheck(t *testing.T) {
 		r.Require(r.Counter("authn_refused_no_ready_endpoint")+r.Counter("authz_refused_no_ready_endpoint") > int64(ns/2), "too few requests to clusters without a ready endpoint")
 		r.Require(r.Counter("overlap_pairs_authn") >= int64(ns/2) && r.Counter("overlap_pairs_authz") >= int64(ns/2) && r.Counter("overlap_pairs_authz_impersonation") >= int64(ns/10),
 			"too few request pairs with the same credentials overlapped (review of the first in flight while the second was issued)")
+		r.Require(r.Counter("retry_cases") >= int64(ns/12) && r.Counter("retry_cases_impersonation") >= int64(ns/60),
+			"too few reviews were retried after a retriable failure with the host moved to another cluster in between")
 		r.Require(r.Counter("gate_watchdog_expired") == 0, "a gated stub review was not released within the 20s watchdog")
 		r.Require(r.Counter("own_cluster_answer_differs_from_table") == 0, "instrument broken: an answer attributed to the host's own cluster is not that cluster's table answer")
 	})
